@@ -7,6 +7,26 @@ VERIF = os.path.dirname(os.path.dirname(os.path.abspath(__file__)))
 ALL = ["C%02d" % i for i in range(1, 20)]
 
 CLAIMED = {
+    "C01": dict(
+        text="Machine-checked proof (Coq) that for every one of the 42 command classes and ALL argument values the CDB has the SAM "
+             "length and carries each argument / the operation code / the T10 service action at the byte and bit position the "
+             "standard assigns, every other bit zero. One generic theorem over a constructor IR (Proofs/CtorSound.v, CdbSpec.v) + "
+             "the general codec laws; the per-class obligation is a decidable side condition evaluated by vm_compute on the "
+             "constructor IR and mask tables REGENERATED from /repo on every run against a hand-written Spec/CdbFormats.v. "
+             "The IR semantics is tied to the real constructors by a 6300-case correspondence run.",
+        ref="DESIGN.md §3.4, §4 C01",
+        note="Trusted: Coq kernel + vm_compute; translator (validated by reflection + constructor correspondence); Spec/CdbFormats.v "
+             "(my transcription of the standards' CDB tables); hand-written IR semantics (Model/Ctor.v) tied by correspondence. "
+             "The SAT LBA byte shuffle is treated as a named helper in the theorem (its byte order is checked on the implementation by the probe oracle).",
+        technique="Coq proof by reflection over a regenerated constructor IR + vm_compute correspondence"),
+    "C02": dict(
+        text="Machine-checked proof (Coq): for every class, decoding the CDB a constructor built returns the values it was built from, "
+             "re-encoding any canonical CDB reproduces its bytes, and changing one field changes only that field — instances of the "
+             "general codec theorems under the side condition wf_layout(class table) evaluated on the regenerated tables, with field "
+             "widths equal to the standard's. marshall_cdb/unmarshall_cdb right after construction are compared with the model on every run.",
+        ref="DESIGN.md §4 C02",
+        note="As C01. Stated for the class-level state left by constructing a command of that class; interference by other commands is C09.",
+        technique="Coq proof (codec laws instantiated on regenerated tables) + vm_compute correspondence"),
     "C10": dict(
         text="Machine-checked proof (Coq 8.16.1) of the codec laws for every buffer size, every contiguous mask at any "
              "alignment, every offset, every in-range value, every field order and arbitrary prior contents "
